@@ -88,6 +88,7 @@ var histShapes = []hshape{
 	{Name: "names-a-tool-might-reserve", Tasks: []htask{{Name: "last", Lits: []string{"a.txt"}, NCmd: 1}, {Name: "version", Lits: []string{"b.txt"}, Deps: []string{"last"}, NCmd: 1}}, Files: []string{"a.txt", "b.txt"}},
 	{Name: "declared-output-feeds-a-glob", Tasks: []htask{{Name: "A", Lits: []string{"a.txt"}, NCmd: 1, Copies: [][2]string{{"a.txt", "g.txt"}}, Outs: []string{"g.txt"}}, {Name: "B", Lits: []string{"b.txt"}, Globs: []string{"g*.txt"}, Deps: []string{"A"}, NCmd: 1}}, Files: []string{"a.txt", "b.txt", "g.txt"}},
 	{Name: "generator-two-levels-up", Tasks: []htask{{Name: "A", Lits: []string{"a.txt"}, NCmd: 1, Copies: [][2]string{{"a.txt", "g.txt"}}}, {Name: "B", Lits: []string{"b.txt"}, Deps: []string{"A"}, NCmd: 1}, {Name: "C", Lits: []string{"b.txt"}, Globs: []string{"g*.txt"}, Deps: []string{"B"}, NCmd: 1}}, Files: []string{"a.txt", "b.txt", "g.txt"}},
+	{Name: "generator-behind-a-grouping-task", Tasks: []htask{{Name: "A", Lits: []string{"a.txt"}, NCmd: 1, Copies: [][2]string{{"a.txt", "g.txt"}}}, {Name: "B", Deps: []string{"A"}, NCmd: 0}, {Name: "C", Lits: []string{"b.txt"}, Globs: []string{"g*.txt"}, Deps: []string{"B"}, NCmd: 1}}, Files: []string{"a.txt", "b.txt", "g.txt"}},
 	{Name: "generated-input", Tasks: []htask{{Name: "A", Lits: []string{"a.txt"}, NCmd: 1, Copies: [][2]string{{"a.txt", "g.txt"}}}, {Name: "B", Lits: []string{"g.txt"}, Deps: []string{"A"}, NCmd: 1}}, Files: []string{"a.txt", "g.txt"}},
 	{Name: "chain-of-three", Tasks: []htask{{Name: "A", Lits: []string{"a.txt"}, NCmd: 1}, {Name: "B", Lits: []string{"b.txt"}, Deps: []string{"A"}, NCmd: 1}, {Name: "C", Deps: []string{"B"}, NCmd: 1}}, Files: []string{"a.txt", "b.txt"}},
 }
@@ -278,9 +279,16 @@ type hop struct {
 	Tasks []string `json:"tasks,omitempty"`
 	Force bool     `json:"force,omitempty"`
 	Fail  string   `json:"fail,omitempty"` // "T.i": command i of task T fails in this invocation
+	Clean bool     `json:"via_clean,omitempty"` // binary only: `spok --clean` (Tasks = ["clean"], a user-defined task that is run like any other)
 }
 
 func (o hop) String() string {
+	if o.Kind == "run" && o.Clean {
+		if o.Force {
+			return "spok --clean --force"
+		}
+		return "spok --clean"
+	}
 	switch o.Kind {
 	case "write":
 		return fmt.Sprintf("write %s=%s", o.File, o.Value)
@@ -659,7 +667,11 @@ func (sb *sandbox) runBinary(bin string, s hshape, op hop, extraEnv []string) ho
 	if op.Force {
 		args = append(args, "--force")
 	}
-	args = append(args, op.Tasks...)
+	if op.Clean {
+		args = append(args, "--clean")
+	} else {
+		args = append(args, op.Tasks...)
+	}
 	// every other binary run finds variables in its environment that a tool might give a meaning to
 	sb.nBinary++
 	variant := sb.nBinary
@@ -747,6 +759,14 @@ func judgeRun(s hshape, pre hstate, o hobs, st *hstate, c02 c02mode) hverdict {
 		last := pre.Model[name]
 		exec := o.executed(name)
 		rep, haveRep := o.Reported[name]
+		if t.NCmd == 0 {
+			// a task without commands leaves no trace in the side-effect log: whether it was run or
+			// skipped is only known from the report, and without one it is not judged
+			if !haveRep {
+				continue
+			}
+			exec = !rep
+		}
 		reached := haveRep || exec
 		if !reached {
 			if errored || o.Killed || o.Exit != 0 {
